@@ -345,19 +345,22 @@ def rule_use(S):
 
 def rule_slice(S):
     facts = S.facts()
-    S.rule('R-SLICE', 'where a string_view key is cut into (slice, length) - get, put, remove, border_split, '
-                      'border_node::insert_lv_at, key_tuple(string_view) - abstract evaluation for every key size 0..8 '
-                      'and > 8 yields: size > 8 => slice = first 8 key bytes, length 9 (or "link"); else slice = '
-                      'zero-initialised word with exactly `size` key bytes copied, length = size')
+    S.rule('R-SLICE', 'where a string_view key is cut into (slice, length) - get, put, remove, '
+                      'border_node::insert_lv_at, key_tuple(string_view), and the two scan descents - abstract '
+                      'evaluation for every key size 0..8 and > 8 yields: size > 8 => slice = first 8 key bytes; else '
+                      'slice = zero-initialised word with exactly `size` key bytes copied; the length handed to '
+                      'find_border is size (<= 8) or a link length (> 8); a scan descent, whose length is only a start '
+                      'hint, may use a smaller length but never a larger one')
     n = 0
 
-    def check(f, fname):
+    def check(f, fname, hint=False):
         nonlocal n
         # slice locals of type key_slice_type and length locals of key_length_type in this function
         svp = [p['name'] for p in f.params if 'basic_string_view' in p['type']]
         if not svp:
             return
         bad = []
+        badlen = []
         for size in list(range(0, 9)) + [12]:
             pair = (min(size, 9) if size <= 8 else 9, 0, 8, 0)
             log = []
@@ -381,6 +384,12 @@ def rule_slice(S):
                                 cnt = None
                             zero = _zero_before(f, x, ev)
                             log.append(('copy', cnt, zero))
+                if is_call(nd, cq=Y + 'find_border'):
+                    a = call_args(f, nd)
+                    try:
+                        log.append(('len', ev.ev(a[2]) if len(a) > 2 else None))
+                    except AnalysisBroken:
+                        log.append(('len', None))
                 if is_call(nd, cq={Y + 'find_border', Y + 'border_node::get_lv_of', Y + 'base_node::set_key_length_at'}) or \
                         nd['k'] == 'ReturnStmt' or is_call(nd, cq='memcmp'):
                     return ('done', None)
@@ -389,6 +398,11 @@ def rule_slice(S):
             bind = {'vars': {svp[-1] if f.name != 'put' else svp[-1]: ('obj', 'kv')}, 'members': {}, 'calls': dict(NODE_CALLS)}
             for nm in svp:
                 bind['vars'][nm] = ('obj', 'kv')
+            for p_ in f.params:
+                if p_['type'].replace('const ', '') == 'bool':
+                    bind['vars'][p_['name']] = 0       # forward direction / flags off
+                if 'scan_endpoint' in p_['type']:
+                    bind['vars'][p_['name']] = 1       # a bounded endpoint (the key is used)
             ev = AbsEval(f, pair, bind, markers, {'key_size': size})
             try:
                 ev.run(_slice_start(f))
@@ -402,17 +416,49 @@ def rule_slice(S):
                 okc = len(copies) >= 1 and copies[0][1] == want and (size > 8 or copies[0][2])
             if not okc:
                 bad.append((size, copies))
+            lens = [c[1] for c in log if c[0] == 'len']
+            if lens:
+                L = lens[0]
+                if L is None:
+                    badlen.append((size, 'not evaluable'))
+                elif size <= 8:
+                    # exact sites: the length of a key that fits the slice is its size; a scan descent may use a
+                    # smaller length (it only moves the start border to the left) but never a larger one
+                    if (L != size and not hint) or (hint and L > size):
+                        badlen.append((size, L))
+                elif not hint and L <= 8:
+                    badlen.append((size, L))
         n += 1
         S.ob('R-SLICE', fname, 'slicing (10 key sizes)', not bad,
              'copies min(size, 8) key bytes into a zero-initialised slice' if not bad else
              'for key size %s the slice is built as %s' % (bad[0][0], bad[0][1]), loc=f.loc)
+        S.ob('R-SLICE', fname, 'key length handed to the descent (10 key sizes)', not badlen,
+             ('never exceeds the length of a key that fits the slice (scan start hint)' if hint else
+              'size for keys that fit the slice, the link length beyond') if not badlen else
+             'for key size %s the descent uses length %s%s' % (
+                 badlen[0][0], badlen[0][1],
+                 ': an 8-byte left endpoint is routed like the next-layer link that sorts after it, the scan starts '
+                 'one border too far right' if hint else ''), loc=f.loc)
 
     for q, pick in ((Y + 'get', lambda f: f.params and f.params[0]['type'] == 'yakushima::tree_instance *'),
                     (Y + 'put', lambda f: len(f.params) > 1 and f.params[1]['type'] == 'yakushima::tree_instance *'),
                     (Y + 'remove', lambda f: len(f.params) > 1 and f.params[1]['type'] == 'yakushima::tree_instance *')):
         for f in facts.by_qname(q, pick):
             check(f, f.qname + ('<%s>' % f.targs if f.targs else ''))
-    S.require('R-SLICE', 'slicing sites', n, 3)
+    for q in (Y + 'base_node::key_tuple::key_tuple', Y + 'border_node::insert_lv_at'):
+        for f in facts.by_qname(q):
+            if f.blocks and any('basic_string_view' in p_['type'] for p_ in f.params):
+                try:
+                    check(f, f.qname + ('<%s>' % f.targs if f.targs else ''))
+                except AnalysisBroken as e:
+                    S.note('R-SLICE: %s not evaluated (%s)' % (f.qname, str(e)[:120]))
+    # the two scan descents: same slicing; their length is only a start hint and must never exceed the true length
+    for f in facts.by_qname(Y + 'scan'):
+        if f.is_lambda or not f.params:
+            continue
+        if f.params[0]['type'] in ('yakushima::tree_instance *', 'yakushima::base_node *const', 'yakushima::base_node *'):
+            check(f, f.qname + '<%s>(%s)' % (f.targs, f.params[0]['type'].replace('yakushima::', '')), hint=True)
+    S.require('R-SLICE', 'slicing sites', n, 5)
 
 
 def _slice_start(f):
